@@ -24,6 +24,7 @@ int  ledger_owner(void *p);                             // session id or -1
 size_t ledger_size(void *p);
 void ledger_handover(void *p);                          // library allocation now owned by the application
 std::vector<LedgerEntry> ledger_live_of(int ses);       // live library allocations of a session, not handed over, by seq
+std::vector<void *> ledger_reachable_from_statics();     // live library blocks reachable from .data/.bss (LSan semantics)
 size_t ledger_live_count();
 std::vector<LedgerEvent> ledger_take_events();
 uint64_t ledger_lib_allocs();                           // counter
